@@ -112,3 +112,11 @@ type onlyReader struct{ io.Reader }
 var paths = []string{"slice", "stream"}
 
 func hx(b []byte) string { return hex.EncodeToString(b) }
+
+func unhx(s string) []byte {
+	b, err := hex.DecodeString(s)
+	if err != nil {
+		panic(err)
+	}
+	return b
+}
